@@ -203,7 +203,7 @@ def run_check(tier, seed, nworkers=None, nruns=None, budget_s=None, evidence_pat
         "deadline_hit": [], "digests": {}, "records": {}, "max_tasks": 0,
         "model_s": 0.0, "sim_s": 0.0, "reruns": {}, "start_failures": {},
         "identity_reuse": 0, "classes_dropped": 0, "state_probes": {}, "targeted": None,
-        "slowest": [], "scenario_s": collections.Counter(),
+        "slowest": [], "scenario_s": collections.Counter(), "state_touch": {},
     }
 
     # hard wall limit for the whole check: the budget stops workers from *starting*
@@ -268,6 +268,9 @@ def run_check(tier, seed, nworkers=None, nruns=None, budget_s=None, evidence_pat
                             k.split(":", 1)[0] in ("slot-filled", "internal-changed", "new-name",
                                                    "removed-internal", "code-rebound"):
                         agg["state_probes"].setdefault(k, set()).add(msg["focus"])
+                for kind_, keys_ in (msg.get("touched") or {}).items():
+                    for key_ in keys_:
+                        agg["state_touch"].setdefault(key_, set()).add(kind_)
                 agg["scenarios"][msg["scenario"]] += 1
                 agg["configs"][msg["config"]] += 1
                 agg["kinds"].update(msg["kinds"])
@@ -344,8 +347,14 @@ def run_check(tier, seed, nworkers=None, nruns=None, budget_s=None, evidence_pat
         # twelve kinds
         order = sorted(agg["state_probes"],
                        key=lambda k: (k.startswith(("new-name", "code-rebound")), k))
-        per_key = {key: [k for k in sorted(agg["state_probes"][key], key=pref)
-                         if k in G.BY_KIND][:3] for key in order}
+        # kinds whose call, made alone, touches the key (known exactly from the model's
+        # evaluations once hidden state had been noticed) before kinds in whose runs the
+        # change was merely observed (their argument producers may have caused it)
+        per_key = {}
+        for key in order:
+            exact = sorted(agg["state_touch"].get(key, ()), key=pref)
+            seen_ = [k for k in sorted(agg["state_probes"][key], key=pref) if k not in exact]
+            per_key[key] = [k for k in exact + seen_ if k in G.BY_KIND][:3]
         for rnd in range(3):
             for key in order:
                 if rnd < len(per_key[key]) and per_key[key][rnd] not in chosen \
@@ -369,6 +378,9 @@ def run_check(tier, seed, nworkers=None, nruns=None, budget_s=None, evidence_pat
             assign2[std[j % len(std)]].append(i)
         agg["targeted"] = {"state_keys": {k: sorted(v)[:6]
                                           for k, v in sorted(agg["state_probes"].items())[:20]},
+                           "touched_when_called_alone": {
+                               k: sorted(v, key=pref)[:6]
+                               for k, v in sorted(agg["state_touch"].items())[:20]},
                            "kinds": chosen, "runs_planned": idx - n}
         runs_before = agg["runs"]
         collect(launch(assign2, min(max(90.0, left), hard_s - (time.monotonic() - t0) - 60),
